@@ -421,7 +421,9 @@ ONE_VECTOR_OPS = {
     "to_Vector4D-keywords": lambda v: v.to_Vector4D(**({"z": 1.5} if len(coords.sig_of(v)) < 2 else {}), **({"t": 7.25} if len(coords.sig_of(v)) < 3 else {})),
 }
 SCALAR_OPS = {"rho": lambda v: v.rho, "phi": lambda v: v.phi, "dot_self": lambda v: v.dot(v)}
-TWO_VECTOR_OPS = {"add_self": lambda v, o: v.add(v), "subtract_object": lambda v, o: v.subtract(o), "add_operator": lambda v, o: v + v}
+TWO_VECTOR_OPS = {"add_self": lambda v, o: v.add(v), "subtract_object": lambda v, o: v.subtract(o), "add_operator": lambda v, o: v + v,
+                  "cross_object": lambda v, o: v.cross(o) if len(coords.sig_of(v)) == 2 else v.add(o),
+                  "cross_shifted_self": lambda v, o: v.cross(v.add(o)) if len(coords.sig_of(v)) == 2 else v.subtract(v.add(o))}
 
 
 def is_missing(x):
@@ -827,24 +829,40 @@ def worker(args):
         case, elems = item["case"], item["elems"]
         if part == "reduce":
             sigs = coords.signatures(case["dim"])
-            out["calls"] += run_reduce(case, elems, sigs, out["records"])
+            try:
+                out["calls"] += run_reduce(case, elems, sigs, out["records"])
+            except Exception as ex:
+                from . import common as _c
+                out["records"].append(_c.crash_record("reduce", ex, case=case))
         elif part == "index":
             sigs = [s for n in (2, 3, 4) for s in coords.signatures(n)]
             if sigs_mode != "all":
                 h = hash(json.dumps(case, sort_keys=True))
                 sigs = [sigs[(h + 7 * k) % len(sigs)] for k in range(6)]
-            out["calls"] += run_index(case, elems, sigs, out["records"])
+            try:
+                out["calls"] += run_index(case, elems, sigs, out["records"])
+            except Exception as ex:
+                from . import common as _c
+                out["records"].append(_c.crash_record("index", ex, case=case))
         elif part == "broadcast":
             sigs = [s for n in (2, 3, 4) for s in coords.signatures(n)]
             if sigs_mode != "all":
                 h = hash(json.dumps(case, sort_keys=True))
                 sigs = [sigs[(h + 3 * k) % len(sigs)] for k in range(4)] + [sigs[0]]
-            out["calls"] += run_broadcast(case, elems, sigs, out["records"])
+            try:
+                out["calls"] += run_broadcast(case, elems, sigs, out["records"])
+            except Exception as ex:
+                from . import common as _c
+                out["records"].append(_c.crash_record("broadcast", ex, case=case))
         else:
             sigs = [s for n in (2, 3, 4) for s in coords.signatures(n)]
             if sigs_mode != "all":
                 sigs = sigs[::3]
-            out["calls"] += run_layout(case, elems, sigs, out["records"])
+            try:
+                out["calls"] += run_layout(case, elems, sigs, out["records"])
+            except Exception as ex:
+                from . import common as _c
+                out["records"].append(_c.crash_record("layout", ex, case=case))
         out["cases"] += 1
     return out
 
